@@ -1,1 +1,295 @@
-(* placeholder: to be written *)
+(** Executable model of the pair's safe-price module.
+
+    Mirrors, function by function and guard by guard:
+      dex/pair/src/safe_price.rs        (update_safe_price, compute_new_observation; ring buffer
+                                         price_observations : VecMapper, safe_price_current_index)
+      dex/pair/src/safe_price_view.rs   (get_oldest_price_observation, get_price_observation:
+                                         last / simulated / binary search / linear interpolation,
+                                         compute_weighted_amounts, compute_weighted_price, getSafePrice*,
+                                         getLpTokensSafePrice*, getPriceObservation, default offsets)
+      dex/pair/src/read_pair_storage.rs (the views read reserves / supply / ring of the pair account)
+    and the composition with Model.Pair: every successful pool operation of the kinds that call
+    [update_safe_price] feeds the ring with the PRE-operation reserves.
+
+    The ring capacity [N] (MAX_OBSERVATIONS in the source) is a Section variable: nothing in this
+    file depends on its value.  VecMapper indices are 1-based; [get]/[set] outside 1..len abort.
+    u64/usize subtractions that would wrap are modelled as aborting ([sub_chk]).
+    No proofs in this file. *)
+From MX Require Import Base.Prelude Gen.Params Model.Pair.
+
+(** PriceObservation *)
+Record obs := mkO {
+  ob_a1 : Z;        (* first_token_reserve_accumulated *)
+  ob_a2 : Z;        (* second_token_reserve_accumulated *)
+  ob_w : Z;         (* weight_accumulated *)
+  ob_round : Z;     (* recording_round *)
+  ob_lp : Z         (* lp_supply_accumulated *)
+}.
+Definition obs0 : obs := mkO 0 0 0 0 0.        (* PriceObservation::default() *)
+
+(** one call of update_safe_price: block round and the three arguments *)
+Record upd := mkU { u_round : Z; u_r1 : Z; u_r2 : Z; u_S : Z }.
+
+(** what the views read besides the ring: current block round, the pair's reserves and LP supply *)
+Record env := mkEnv { e_now : Z; e_r1 : Z; e_r2 : Z; e_S : Z }.
+
+(** ------------------------------------------------------------------ VecMapper *)
+Definition vlen (l : list obs) : Z := Z.of_nat (length l).
+
+Definition vget (l : list obs) (i : Z) : result obs :=
+  if (1 <=? i) && (i <=? vlen l) then Ok (nth (Z.to_nat (i - 1)) l obs0) else Err EGuard.
+
+Definition vset (l : list obs) (i : Z) (o : obs) : result (list obs) :=
+  if (1 <=? i) && (i <=? vlen l)
+  then Ok (firstn (Z.to_nat (i - 1)) l ++ o :: skipn (Z.to_nat i) l)
+  else Err EGuard.
+
+Record ring := mkRing {
+  rg_obs : list obs;      (* price_observations, index 1 first *)
+  rg_cur : Z              (* safe_price_current_index (0 while nothing was recorded) *)
+}.
+Definition ring0 : ring := mkRing [] 0.
+
+(** compute_new_observation *)
+Definition compute_new (round r1 r2 s : Z) (last : obs) : result obs :=
+  do w <- (if ob_round last =? 0 then Ok 1 else sub_chk round (ob_round last));
+  Ok (mkO (ob_a1 last + w * r1) (ob_a2 last + w * r2) (ob_w last + w) round (ob_lp last + w * s)).
+
+Section Ring.
+Variable N : Z.
+
+(** ------------------------------------------------------------------ safe_price.rs *)
+Definition update (rg : ring) (round r1 r2 s : Z) : result ring :=
+  if (r1 =? 0) || (r2 =? 0) || (s =? 0) then Ok rg else
+  check (rg_cur rg <=? N) else EGuard;
+  do (last, ni) <-
+     (if vlen (rg_obs rg) =? 0 then Ok (obs0, 1)
+      else do l <- vget (rg_obs rg) (rg_cur rg); Ok (l, rg_cur rg mod N + 1));
+  if ob_round last =? round then Ok rg else
+  do nw <- compute_new round r1 r2 s last;
+  do obs' <- (if vlen (rg_obs rg) =? N then vset (rg_obs rg) ni nw else Ok (rg_obs rg ++ [nw]));
+  Ok (mkRing obs' ni).
+
+Definition update_u (rg : ring) (u : upd) : result ring :=
+  update rg (u_round u) (u_r1 u) (u_r2 u) (u_S u).
+
+Fixpoint run_updates (rg : ring) (us : list upd) : result ring :=
+  match us with
+  | [] => Ok rg
+  | u :: t => do rg' <- update_u rg u; run_updates rg' t
+  end.
+
+(** ------------------------------------------------------------------ safe_price_view.rs *)
+Definition get_oldest (rg : ring) : result obs :=
+  check negb (vlen (rg_obs rg) =? 0) else EGuard;
+  let idx := if vlen (rg_obs rg) =? N then rg_cur rg mod N + 1 else 1 in
+  vget (rg_obs rg) idx.
+
+(** the while loop of price_observation_by_binary_search; [si] is the last probed index *)
+Fixpoint bs_loop (fuel : nat) (l : list obs) (x lo hi si : Z) : result (obs * Z) :=
+  if lo <=? hi then
+    match fuel with
+    | O => Err EArith
+    | S f =>
+        let m := (lo + hi) / 2 in
+        do po <- vget l m;
+        if ob_round po =? x then Ok (po, m)
+        else if ob_round po <? x then bs_loop f l x (m + 1) hi m
+        else do hi' <- sub_chk m 1; bs_loop f l x lo hi' m
+    end
+  else Ok (obs0, si).
+
+Definition bsearch (rg : ring) (x : Z) : result (obs * Z) :=
+  do o1 <- vget (rg_obs rg) 1;
+  do (lo, hi) <-
+     (if ob_round o1 <=? x then do h <- sub_chk (rg_cur rg) 1; Ok (1, h)
+      else Ok (rg_cur rg + 1, vlen (rg_obs rg)));
+  bs_loop (Z.to_nat N) (rg_obs rg) x lo hi 1.
+
+Definition interpolate (rg : ring) (x si : Z) : result obs :=
+  do found <- vget (rg_obs rg) si;
+  do (lf, rt) <-
+     (if ob_round found <? x then
+        do r <- vget (rg_obs rg) (si mod N + 1); Ok (found, r)
+      else
+        do l <- vget (rg_obs rg) (if si =? 1 then N else si - 1); Ok (l, found));
+  do lw <- sub_chk (ob_round rt) x;
+  do rw <- sub_chk x (ob_round lf);
+  let ws := lw + rw in
+  do a1 <- div_chk (lw * ob_a1 lf + rw * ob_a1 rt) ws;
+  do a2 <- div_chk (lw * ob_a2 lf + rw * ob_a2 rt) ws;
+  do lp <- div_chk (lw * ob_lp lf + rw * ob_lp rt) ws;
+  do w <- sub_chk (ob_w lf + x) (ob_round lf);
+  Ok (mkO a1 a2 w x lp).
+
+Definition get_price_observation (rg : ring) (ev : env) (x : Z) : result obs :=
+  check negb (vlen (rg_obs rg) =? 0) else EGuard;
+  do last <- vget (rg_obs rg) (rg_cur rg);
+  if ob_round last =? x then Ok last
+  else if ob_round last <? x then
+    check (x <=? e_now ev) else EGuard;
+    compute_new x (e_r1 ev) (e_r2 ev) (e_S ev) last
+  else
+    do (po, si) <- bsearch rg x;
+    if 0 <? ob_round po then Ok po else interpolate rg x si.
+
+(** compute_weighted_amounts: (weighted first reserve, weighted second reserve, weighted lp supply) *)
+Definition weighted_amounts (f l : obs) : result (Z * Z * Z) :=
+  do wd <- sub_chk (ob_w l) (ob_w f);
+  check (0 <? wd) else EGuard;
+  do d1 <- sub_chk (ob_a1 l) (ob_a1 f);
+  do d2 <- sub_chk (ob_a2 l) (ob_a2 f);
+  do wl <- (if 0 <? ob_lp f then do dl <- sub_chk (ob_lp l) (ob_lp f); Ok (dl / wd) else Ok 0);
+  Ok (d1 / wd, d2 / wd, wl).
+
+(** getSafePrice: returns (token out, amount out) *)
+Definition get_safe_price (rg : ring) (ev : env) (s e tok amt : Z) : result (Z * Z) :=
+  check (s <? e) else EGuard;
+  do oldest <- get_oldest rg;
+  check (ob_round oldest <=? s) else EGuard;
+  do f <- get_price_observation rg ev s;
+  do l <- get_price_observation rg ev e;
+  do (w1, w2, _) <- weighted_amounts f l;
+  if tok =? T1 then do out <- div_chk (amt * w2) w1; Ok (T2, out)
+  else if tok =? T2 then do out <- div_chk (amt * w1) w2; Ok (T1, out)
+  else Err EGuard.
+
+(** getLpTokensSafePrice: returns (first token worth, second token worth) *)
+Definition get_lp_safe_price (rg : ring) (ev : env) (s e liq : Z) : result (Z * Z) :=
+  check (s <? e) else EGuard;
+  do oldest <- get_oldest rg;
+  check (ob_round oldest <=? s) else EGuard;
+  do f <- get_price_observation rg ev s;
+  do l <- get_price_observation rg ev e;
+  do (w1, w2, wl) <- weighted_amounts f l;
+  if (wl =? 0) && (e_S ev =? 0) then Ok (0, 0) else
+  let wl' := if wl =? 0 then e_S ev else wl in
+  do x1 <- div_chk (liq * w1) wl';
+  do x2 <- div_chk (liq * w2) wl';
+  Ok (x1, x2).
+
+(** getPriceObservation *)
+Definition view_observation (rg : ring) (ev : env) (x : Z) : result obs :=
+  do oldest <- get_oldest rg;
+  check (ob_round oldest <=? x) else EGuard;
+  get_price_observation rg ev x.
+
+(** ...ByRoundOffset / ...ByTimestampOffset / ...ByDefaultOffset *)
+Definition offset_start (ev : env) (off : Z) : result Z :=
+  check (0 <? off) && (off <? e_now ev) else EGuard;
+  Ok (e_now ev - off).
+
+Definition default_start (rg : ring) (ev : env) : result Z :=
+  do oldest <- get_oldest rg;
+  do d <- sub_chk (e_now ev) (ob_round oldest);
+  let d' := if DEFAULT_SAFE_PRICE_ROUNDS_OFFSET <? d then DEFAULT_SAFE_PRICE_ROUNDS_OFFSET else d in
+  Ok (e_now ev - d').
+
+Inductive query :=
+| QObs (x : Z)                         (* getPriceObservation *)
+| QPrice (s e tok amt : Z)             (* getSafePrice *)
+| QPriceOff (off tok amt : Z)          (* getSafePriceByRoundOffset *)
+| QPriceTs (ts tok amt : Z)            (* getSafePriceByTimestampOffset *)
+| QPriceDef (tok amt : Z)              (* getSafePriceByDefaultOffset, updateAndGetSafePrice *)
+| QLp (s e liq : Z)                    (* getLpTokensSafePrice *)
+| QLpOff (off liq : Z)                 (* getLpTokensSafePriceByRoundOffset *)
+| QLpTs (ts liq : Z)                   (* getLpTokensSafePriceByTimestampOffset *)
+| QLpDef (liq : Z).                    (* getLpTokensSafePriceByDefaultOffset, updateAndGetTokensForGivenPositionWithSafePrice *)
+
+(** results as flat lists: an observation = its five fields, a price = [token; amount],
+    an LP valuation = [first amount; second amount] *)
+Definition obs_fields (o : obs) : list Z := [ob_a1 o; ob_a2 o; ob_w o; ob_round o; ob_lp o].
+
+Definition run_query (rg : ring) (ev : env) (q : query) : result (list Z) :=
+  match q with
+  | QObs x => do o <- view_observation rg ev x; Ok (obs_fields o)
+  | QPrice s e tok amt => do (t, a) <- get_safe_price rg ev s e tok amt; Ok [t; a]
+  | QPriceOff off tok amt =>
+      do s <- offset_start ev off;
+      do (t, a) <- get_safe_price rg ev s (e_now ev) tok amt; Ok [t; a]
+  | QPriceTs ts tok amt =>
+      do s <- offset_start ev (ts / SECONDS_PER_ROUND);
+      do (t, a) <- get_safe_price rg ev s (e_now ev) tok amt; Ok [t; a]
+  | QPriceDef tok amt =>
+      do s <- default_start rg ev;
+      do (t, a) <- get_safe_price rg ev s (e_now ev) tok amt; Ok [t; a]
+  | QLp s e liq => do (a, b) <- get_lp_safe_price rg ev s e liq; Ok [a; b]
+  | QLpOff off liq =>
+      do s <- offset_start ev off;
+      do (a, b) <- get_lp_safe_price rg ev s (e_now ev) liq; Ok [a; b]
+  | QLpTs ts liq =>
+      do s <- offset_start ev (ts / SECONDS_PER_ROUND);
+      do (a, b) <- get_lp_safe_price rg ev s (e_now ev) liq; Ok [a; b]
+  | QLpDef liq =>
+      do s <- default_start rg ev;
+      do (a, b) <- get_lp_safe_price rg ev s (e_now ev) liq; Ok [a; b]
+  end.
+
+(** ------------------------------------------------------------------ composition with the pool
+    pair_actions/{swap,add_liq,remove_liq}.rs: swapTokensFixedInput/Output, swapNoFeeAndForward,
+    addLiquidity, removeLiquidity, removeLiquidityAndBuyBackAndBurnToken call update_safe_price
+    with the storage-cache reserves before changing them; addInitialLiquidity and the admin
+    endpoints do not. *)
+Definition updating (op : pop) : bool :=
+  match op with
+  | Add _ _ _ _ _ | Remove _ _ _ _ | SwapIn _ _ _ _ _ | SwapOut _ _ _ _ _
+  | SwapNoFee _ _ _ _ | RemoveBuyBack _ _ _ => true
+  | _ => false
+  end.
+
+Record spw := mkSpw { sw_w : world; sw_ring : ring }.
+
+Definition upd_of (round : Z) (p : pair) : upd := mkU round (p_r1 p) (p_r2 p) (p_S p).
+
+Definition sp_step (w : spw) (round : Z) (op : pop) : result (spw * outs) :=
+  do (w', o, _) <- wstep (sw_w w) op;
+  do rg' <- (if updating op then update_u (sw_ring w) (upd_of round (w_p (sw_w w))) else Ok (sw_ring w));
+  Ok (mkSpw w' rg', o).
+
+Definition sp_step_total (w : spw) (rop : Z * pop) : spw :=
+  match sp_step w (fst rop) (snd rop) with Ok (w', _) => w' | Err _ => w end.
+
+Definition sp_run (w : spw) (ops : list (Z * pop)) : spw := fold_left sp_step_total ops w.
+
+Definition env_of (w : spw) (now : Z) : env :=
+  let p := w_p (sw_w w) in mkEnv now (p_r1 p) (p_r2 p) (p_S p).
+
+End Ring.
+
+(** ------------------------------------------------------------------ the observations ever recorded
+    Plain (non-aborting, linear-time) description of what a sequence of update calls records; the
+    trace checker uses it to build injected ring states, Proofs/SafePriceProofs.v proves that
+    [run_updates] computes exactly [layout N (observations us)] when rounds never decrease. *)
+Definition u_zero (u : upd) : bool := (u_r1 u =? 0) || (u_r2 u =? 0) || (u_S u =? 0).
+
+(** the calls that record an observation: reserves all non-zero, round differs from the last recorded one *)
+Fixpoint eff_from (lr : Z) (us : list upd) : list upd :=
+  match us with
+  | [] => []
+  | u :: t => if u_zero u || (u_round u =? lr) then eff_from lr t else u :: eff_from (u_round u) t
+  end.
+Definition eff (us : list upd) : list upd := eff_from 0 us.
+
+Definition nobs (last : obs) (u : upd) : obs :=
+  let w := if ob_round last =? 0 then 1 else u_round u - ob_round last in
+  mkO (ob_a1 last + w * u_r1 u) (ob_a2 last + w * u_r2 u) (ob_w last + w) (u_round u) (ob_lp last + w * u_S u).
+
+Fixpoint chain_from (prev : obs) (E : list upd) : list obs :=
+  match E with
+  | [] => []
+  | u :: t => let o := nobs prev u in o :: chain_from o t
+  end.
+Definition chain (E : list upd) : list obs := chain_from obs0 E.
+Definition observations (us : list upd) : list obs := chain (eff us).
+
+(** ------------------------------------------------------------------ ring of a list of observations
+    The observations ever recorded, oldest first, laid out the way the contract stores them:
+    observation number j (1-based) lives at index ((j-1) mod N)+1 and only the last N survive.
+    (Proofs/SafePriceProofs.v proves that [run_updates] produces exactly this.) *)
+Definition layout (N : Z) (l : list obs) : ring :=
+  let k := vlen l in
+  if k <=? N then mkRing l k
+  else
+    let tl := skipn (Z.to_nat (k - N)) l in
+    let cur := (k - 1) mod N + 1 in
+    mkRing (skipn (Z.to_nat (N - cur)) tl ++ firstn (Z.to_nat (N - cur)) tl) cur.
